@@ -617,6 +617,14 @@ class FunctionFlow:
             for t in s.targets:
                 if isinstance(t, ast.Subscript) and dotted(t.value):
                     st = self._kill(st, dotted(t.value))
+                    # must-fact: the item was removed (synthetic call `__delitem__(container, key)`)
+                    key = t.slice
+                    syn = ast.Call(func=ast.Name(id="__delitem__", ctx=ast.Load()),
+                                   args=[copy.deepcopy(t.value), copy.deepcopy(key)], keywords=[])
+                    for n in ast.walk(syn):
+                        if hasattr(n, "ctx"):
+                            n.ctx = ast.Load()
+                    st = st.with_fact(Fact("call", syn, True, self.expand(syn, st), ("__delitem__",), line))
                     d = self._newdef(dotted(t.value) + "[]", s, None, "delete", extra=t)
                     st = st.copy()
                     st.defs[dotted(t.value) + "[]"] = st.defs.get(dotted(t.value) + "[]", frozenset()) | frozenset([d.did])
